@@ -28,18 +28,33 @@ def table_cases(rng, n_tables, tier):
         # thresholds placed ON observed group frequencies
         N = sum(a + b for a, b in counts) + (sum(nanc) if nanc else 0); Nn = sum(a + b for a, b in counts)
         sizes = sorted(set([a + b for a, b in counts] + [counts[i][0] + counts[i][1] + counts[i + 1][0] + counts[i + 1][1] for i in range(k - 1)]))
-        mfm = rng.choice([sizes[0] / Nn, sizes[0] / N, sizes[min(1, len(sizes) - 1)] / Nn, 0.01, sizes[-1] / N])
+        mfm = rng.choice([sizes[0] / Nn, sizes[0] / N, sizes[min(1, len(sizes) - 1)] / Nn, 0.01, sizes[-1] / N, 0.0, 0])          # incl. an explicit 0 (falsy)
         cfg = dict(min_freq=0.04, min_freq_mod=mfm, max_n_mod=rng.choice([2, 3, 4]), sort_by=rng.choice(['tschuprowt', 'cramerv']),
                    dropna=rng.choice([True, True, False]), output_dtype=rng.choice(['float', 'str']))
+        reindex(case, rng, t)
         cases.append((case, cfg))
     return cases
+
+
+def reindex(case, rng, t):
+    """every third frame gets a non-default index (rows of a split / shuffled sample): offset, shuffled integers or strings; y follows X"""
+    if t % 3 == 0: return
+    def relabel(X, y, kind):
+        n = len(X)
+        idx = [i * 3 + 100 for i in range(n)] if kind == 1 else None
+        if kind == 2:
+            idx = list(range(n)); rng.shuffle(idx)
+        X.index = idx; y.index = idx
+    relabel(case['X'], case['y'], t % 3)
+    if case['X_dev'] is not None: relabel(case['X_dev'], case['y_dev'], t % 3)
 
 
 def random_cases(rng, n):
     out = []
     for _ in range(n):
         case = zoo.random_case(rng)
-        cfg = dict(rng.choice(zoo.CONFIGS)); cfg['min_freq_mod'] = rng.choice([None, None, cfg['min_freq'], 0.05])
+        cfg = dict(rng.choice(zoo.CONFIGS)); cfg['min_freq_mod'] = rng.choice([None, None, cfg['min_freq'], 0.05, 0.0])
+        reindex(case, rng, len(out))
         out.append((case, cfg))
     return out
 
